@@ -51,20 +51,20 @@ impl OsStrM {
 }
 
 fn bytes_eq(a: &[u8], b: &[u8]) -> bool {
-    if a.len() != b.len() {
+    let n = a.len();
+    if n != b.len() {
         return false;
     }
-    // at most CAP iterations; written as a counted loop over the constant so that the unwinding
-    // bound does not depend on a (possibly symbolic) length
-    let mut i = 0;
-    while i < CAP {
-        if i < a.len() && a[i] != b[i] {
-            return false;
-        }
-        i += 1;
-    }
-    true
+    // unrolled over the constant capacity (no loop for the model checker to unwind); lengths are
+    // at most CAP by construction
+    (n < 1 || a[0] == b[0])
+        && (n < 2 || a[1] == b[1])
+        && (n < 3 || a[2] == b[2])
+        && (n < 4 || a[3] == b[3])
+        && (n < 5 || a[4] == b[4])
+        && (n < 6 || a[5] == b[5])
 }
+const _: () = assert!(CAP == 6, "bytes_eq / last_slash / from_bytes are unrolled for CAP == 6");
 
 impl Path {
     pub fn new<S: AsRef<[u8]> + ?Sized>(s: &S) -> &Path {
@@ -88,15 +88,23 @@ impl Path {
         !self.b.is_empty() && self.b[0] == b'/'
     }
     fn last_slash(&self) -> Option<usize> {
-        let mut found = None;
-        let mut i = 0;
-        while i < CAP {
-            if i < self.b.len() && self.b[i] == b'/' {
-                found = Some(i);
-            }
-            i += 1;
+        let b = &self.b;
+        let n = b.len();
+        if n > 5 && b[5] == b'/' {
+            Some(5)
+        } else if n > 4 && b[4] == b'/' {
+            Some(4)
+        } else if n > 3 && b[3] == b'/' {
+            Some(3)
+        } else if n > 2 && b[2] == b'/' {
+            Some(2)
+        } else if n > 1 && b[1] == b'/' {
+            Some(1)
+        } else if n > 0 && b[0] == b'/' {
+            Some(0)
+        } else {
+            None
         }
-        found
     }
     pub fn parent(&self) -> Option<&Path> {
         let n = self.b.len();
@@ -170,16 +178,10 @@ impl PathBuf {
         PathBuf { len: 0, b: [0; CAP] }
     }
     pub(crate) fn from_bytes(s: &[u8]) -> PathBuf {
-        assert!(s.len() <= CAP, "verif_path: path longer than the model's capacity");
-        let mut b = [0u8; CAP];
-        let mut i = 0;
-        while i < CAP {
-            if i < s.len() {
-                b[i] = s[i];
-            }
-            i += 1;
-        }
-        PathBuf { len: s.len(), b }
+        let n = s.len();
+        assert!(n <= CAP, "verif_path: path longer than the model's capacity");
+        let g = |i: usize| if i < n { s[i] } else { 0 };
+        PathBuf { len: n, b: [g(0), g(1), g(2), g(3), g(4), g(5)] }
     }
     fn push_byte(&mut self, c: u8) {
         assert!(self.len < CAP, "verif_path: path longer than the model's capacity");
